@@ -11,22 +11,38 @@ from . import builtins_ as B
 
 
 class Oracle:
+    """decision trace: entries are ('c', i) = chosen alternative i of a real choice point, ('f', v) = forced decision
+    (the other side was infeasible when first explored) - forced entries are replayed without probing the solver again"""
     def __init__(self, prefix=()):
         self.prefix = list(prefix)
         self.pos = 0
         self.new = []       # alternative prefixes discovered on this run
 
+    def replaying(self):
+        return self.pos < len(self.prefix)
+
+    def next_entry(self):
+        e = self.prefix[self.pos]
+        self.pos += 1
+        return e
+
+    def forced(self, v):
+        self.prefix.append(('f', v))
+        self.pos += 1
+
     def choose(self, n):
         if n <= 1:
             return 0
         if self.pos < len(self.prefix):
-            c = self.prefix[self.pos]
+            e = self.prefix[self.pos]
+            assert e[0] == 'c', 'oracle trace out of sync'
+            c = e[1]
         else:
             c = 0
             base = self.prefix[:self.pos]
             for i in range(1, n):
-                self.new.append(base + [i])
-            self.prefix.append(0)
+                self.new.append(base + [('c', i)])
+            self.prefix.append(('c', 0))
         self.pos += 1
         return c
 
@@ -143,12 +159,10 @@ class Engine:
             raise PathEnd('assumption false')
 
     def feasible(self, extra):
-        """quick feasibility probe of pc + extra; unknown counts as feasible"""
-        s = z3.Solver()
-        s.set('timeout', 400)
-        s.add(*self.st.pc)
-        s.add(extra)
-        return s.check() != z3.unsat
+        """quick feasibility probe of pc + extra on the sequence-free over-approximation (never builds sequence models);
+        only a definite 'unsat' prunes, anything else counts as feasible"""
+        from .solve import abstract_check
+        return abstract_check(list(self.st.pc) + [extra], timeout_ms=300) != 'unsat'
 
     def branch(self, cond):
         """decide a symbolic condition on this path: returns python bool, extends the path condition"""
@@ -157,17 +171,23 @@ class Engine:
             return True
         if z3.is_false(c):
             return False
+        orc = self.st.oracle
+        if orc.replaying():
+            e = orc.next_entry()
+            v = e[1] if e[0] == 'f' else (e[1] == 0)
+            self.st.pc.append(c if v else z3.Not(c))
+            return v
         ft = self.feasible(c)
-        ff = self.feasible(z3.Not(c))
+        ff = self.feasible(z3.Not(c)) if ft else True
         if ft and not ff:
+            orc.forced(True)
             self.st.pc.append(c)
             return True
         if ff and not ft:
+            orc.forced(False)
             self.st.pc.append(z3.Not(c))
             return False
-        if not ft and not ff:
-            raise PathEnd('infeasible')
-        if self.st.oracle.choose(2) == 0:
+        if orc.choose(2) == 0:
             self.st.pc.append(c)
             return True
         self.st.pc.append(z3.Not(c))
